@@ -195,6 +195,26 @@ def _fold_minmax(x, args, kw, is_max):
         x = [x] + list(args)
     if isinstance(x, SCursorSlice):
         x = x.materialize()
+    if isinstance(x, SSeq) and x.node[0] == "flat":
+        # max / min over a nested generator: empty iff every inner sequence is empty; otherwise a value that bounds every element and is one of them
+        outer = x.node[1]
+        c = cur()
+        c.n += 1
+        i = z3.Int(f"i!mm{c.n}")
+        c.nofork += 1
+        try:
+            inner = SSeq.of(outer.get(SInt(i)))
+            inner_len = lift(inner.length())
+            elem = inner.get(SInt(z3.Int(f"t!mm{c.n}")))
+        finally:
+            c.nofork -= 1
+        nonempty = z3.Exists([i], z3.And(0 <= i, i < lift(outer.length()), inner_len > 0))
+        if not c.decide(nonempty):
+            raise ValueError("max() iterable argument is empty" if is_max else "min() iterable argument is empty")
+        r = vtypes.mk(vtypes.type_of_value(elem) or ("int",), "max" if is_max else "min")
+        c.assume(sym.seq_forall(x, (lambda v: r >= v) if is_max else (lambda v: r <= v)))
+        c.assume(sym.seq_exists(x, lambda v: sym.val_eq(v, r)))
+        return r
     if isinstance(x, SSeq) and not isinstance(x.length(), int):
         # result r with: r >= every element, r is one of the elements; empty raises ValueError
         n = x.length()
